@@ -1,37 +1,17 @@
 import PlinioVerif.Model.Proto
 import PlinioVerif.Model.PIT.Net
+import PlinioVerif.Model.PIT.Parse
 /-! Line driver for the PIT network-level correspondence (C01, C04, C07, C08, C09).
 
 request : `<op>;<op>;…|<n>=q,q,…;<n>=…|full=<0|1>`
    ops  : `input c` `conv s cout k bias osz` `dw s k bias osz` `lin s cout bias`
           `fixed s cout k bias osz lin?` `fixeddw s k bias osz` `chan s` `add a b` `cat a,b,…`
-          `tcat a,b,…` `flat s mult` `output s`
+          `tcat a,b,…` `flat s mult` `reuse s layer lsrc cout k bias osz` `output s` (Model/PIT/Parse.lean)
    alpha: parameters of the masker of (the component of) searchable node n
 answer  : `sup=<0|1> why=<add|dw|tcat joined by +> ws=<0|1> params=<n> ops=<n> xparams=<n> | <n>:out=…,in=…,frozen=…,grp=…,masker=<0|1>,okept=[..],ikept=[..],groups=… | …`
           or `err:labels`
 -/
 open PlinioVerif PlinioVerif.Proto PlinioVerif.PIT
-
-def parseNats (s : String) : List Nat := (s.splitOn ",").filterMap (·.trimAscii.toString.toNat?)
-
-def attr (k bias osz : String) : Option LAttr := do
-  pure { k := ← k.toNat?, bias := ← parseBool? bias, osz := ← osz.toNat? }
-
-def parseOp (toks : List String) : Option Op :=
-  match toks with
-  | ["input", c] => do pure (.input (← c.toNat?))
-  | ["conv", s, c, k, b, o] => do pure (.conv (← s.toNat?) (← c.toNat?) (← attr k b o))
-  | ["dw", s, k, b, o] => do pure (.dw (← s.toNat?) (← attr k b o))
-  | ["lin", s, c, b] => do pure (.lin (← s.toNat?) (← c.toNat?) (← attr "1" b "1"))
-  | ["fixed", s, c, k, b, o, l] => do pure (.fixed (← s.toNat?) (← c.toNat?) (← attr k b o) (← parseBool? l))
-  | ["fixeddw", s, k, b, o] => do pure (.fixedDw (← s.toNat?) (← attr k b o))
-  | ["chan", s] => do pure (.chan (← s.toNat?))
-  | ["add", a, b] => do pure (.add (← a.toNat?) (← b.toNat?))
-  | ["cat", ss] => some (.cat (parseNats ss))
-  | ["tcat", ss] => some (.tcat (parseNats ss))
-  | ["flat", s, m] => do pure (.flat (← s.toNat?) (← m.toNat?))
-  | ["output", s] => do pure (.output (← s.toNat?))
-  | _ => none
 
 /-- which kinds of op consume a tainted (concat- or flatten-derived) tensor -/
 def unsupKinds (p : Prog) : List String :=
@@ -41,6 +21,7 @@ def unsupKinds (p : Prog) : List String :=
     | .tcat ss => if ss.any (t.getD · false) then some "tcat" else none
     | .dw s _ => if t.getD s false then some "dw" else none
     | .fixedDw s _ => if t.getD s false then some "dw" else none
+    | .reuse s _ ls _ _ => if t.getD s false || t.getD ls false then some "reuse" else none
     | _ => none
   ks.eraseDups
 
